@@ -196,6 +196,12 @@ func (s *backendStorageEtcd) EtcdKeyUpdated(client *EtcdClient, key string, data
 	s.mu.Lock()
 	defer s.mu.Unlock()
 
+	if oldInfo, found := s.keyInfos[key]; found && oldInfo.parsedUrl.Host != host {
+		// The url of the key moved to a different host, the entry for the
+		// previous host is no longer valid.
+		s.removeBackendLocked(key, oldInfo)
+	}
+
 	s.keyInfos[key] = &info
 	entries, found := s.backends[host]
 	if !found {
@@ -240,6 +246,13 @@ func (s *backendStorageEtcd) EtcdKeyDeleted(client *EtcdClient, key string, prev
 	}
 
 	delete(s.keyInfos, key)
+	s.removeBackendLocked(key, info)
+	s.wakeupForTesting()
+}
+
+// removeBackendLocked removes the backend of the given key from the host it
+// was registered for. The caller must hold the write lock.
+func (s *backendStorageEtcd) removeBackendLocked(key string, info *BackendInformationEtcd) {
 	host := info.parsedUrl.Host
 	entries, found := s.backends[host]
 	if !found {
@@ -262,7 +275,6 @@ func (s *backendStorageEtcd) EtcdKeyDeleted(client *EtcdClient, key string, prev
 	} else {
 		delete(s.backends, host)
 	}
-	s.wakeupForTesting()
 }
 
 func (s *backendStorageEtcd) Close() {
